@@ -188,3 +188,45 @@ theorem closed_loop_never_wrong (sc : SCfg) (rc : RCfg) (lc : LoopCfgT sc rc) (f
   exact ph_safe sc rc fl f _ (hrun fuel _ (Or.inl ⟨1, 0, ds, [], hg, hok⟩))
 
 end Tftp
+
+namespace Tftp
+
+theorem ph_sender_ok (sc : SCfg) (rc : RCfg) (fl : Faults) (f : Bytes) (st : NetState) (h : Ph sc rc fl f st) :
+    st.s.status = .ok → st.r.status = .ok ∧ st.r.win.file.content = f := by
+  intro hok
+  rcases h with ⟨B, R, ds, ks, hg, _⟩ | ⟨B, ks, hf⟩ | hra | hsa | hd
+  · rw [hg.srun] at hok; cases hok
+  · rw [hf.srun] at hok; cases hok
+  · rw [hra.sfail] at hok; cases hok
+  · rw [hsa.srun] at hok; cases hok
+  · rcases hd with ⟨h1, h2, _⟩ | ⟨_, _, h3, _⟩
+    · exact ⟨h1, h2⟩
+    · rw [h3] at hok; cases hok
+
+/-- **the sending side never reports success unless the copy has been delivered**: at every moment of every run of
+the closed loop, under every fault schedule and for every file length: if the sender has ended successfully, the
+receiver has ended successfully and holds a byte-identical file -/
+theorem closed_loop_sender_success (sc : SCfg) (rc : RCfg) (lc : LoopCfgT sc rc) (fl : Faults) (f : Bytes) (fuel : Nat) :
+    (netRun sc rc fl fuel (netInit sc rc fl f)).s.status = .ok →
+      (netRun sc rc fl fuel (netInit sc rc fl f)).r.status = .ok ∧
+      (netRun sc rc fl fuel (netInit sc rc fl f)).r.win.file.content = f := by
+  have hrun : ∀ (fuel : Nat) (st : NetState), Ph sc rc fl f st → Ph sc rc fl f (netRun sc rc fl fuel st) := by
+    intro fuel
+    induction fuel with
+    | zero => intro st h; exact h
+    | succ n ih =>
+      intro st h
+      simp only [netRun]
+      cases hs : netStep sc rc fl st with
+      | none => exact h
+      | some st' => exact ih st' (ph_step sc rc lc fl f st st' h hs)
+  obtain ⟨ds, hg⟩ := gs_init sc rc lc fl f
+  have hok : RetryOK (netInit sc rc fl f) := by
+    intro _
+    have : (netInit sc rc fl f).r = rInit rc := by unfold netInit emitData; rfl
+    rw [this]
+    show 0 < Gen.maxRetries
+    decide
+  exact ph_sender_ok sc rc fl f _ (hrun fuel _ (Or.inl ⟨1, 0, ds, [], hg, hok⟩))
+
+end Tftp
